@@ -838,7 +838,7 @@ def ns_fn(
         return ""
     lc_arg = arg.lower()
     for key, ns in wtp.NAMESPACE_DATA.items():
-        if arg.isdigit() and ns["id"] == int(arg):
+        if arg.isdecimal() and ns["id"] == int(arg):
             return ns["name"]
         if ns["name"].lower() == lc_arg or lc_arg == key.lower():
             return ns["name"]
@@ -1994,7 +1994,7 @@ def call_parser_function(
             ofs = arg.find("=")
             if ofs >= 0:
                 k = arg[:ofs]
-                if k.isdigit():
+                if k.isdecimal():
                     k = int(k)
                 arg = arg[ofs + 1 :]
             else:
